@@ -59,9 +59,30 @@ func signedOf(n *big.Int, w int) *big.Int {
 // isDigits/decval hints for numeric strings).
 func concreteString(model map[string]string, term string) (string, bool) {
 	if v, ok := model[sapp("spec$isDigits", term)]; ok && v == "true" {
-		if d, ok := model[sapp("spec$decval", term)]; ok {
-			if n, ok := smtValToBig(d); ok && n.Sign() >= 0 {
-				return n.String(), true
+		if o, ok := model[sapp("spec$decOverflow", term)]; ok && o == "true" {
+			return "99999999999999999999", true
+		}
+		if d, ok := model[sapp("spec$dec64", term)]; ok {
+			if n, ok := smtValToBig(d); ok {
+				return signedOf(n, 64).String(), true
+			}
+		}
+		return "0", true
+	}
+	// sign followed by digits
+	tail := sapp("ssub", term, bvLit(1, 64), sapp("slen", term))
+	if v, ok := model[sapp("spec$isDigits", tail)]; ok && v == "true" {
+		if c0, ok := model[sapp("sat", term, bvLit(0, 64))]; ok {
+			if c, ok := smtValToBig(c0); ok && (c.Int64() == '+' || c.Int64() == '-') {
+				digits := "0"
+				if o, ok := model[sapp("spec$decOverflow", tail)]; ok && o == "true" {
+					digits = "99999999999999999999"
+				} else if d, ok := model[sapp("spec$dec64", tail)]; ok {
+					if n, ok := smtValToBig(d); ok {
+						digits = signedOf(n, 64).String()
+					}
+				}
+				return string(rune(c.Int64())) + digits, true
 			}
 		}
 	}
@@ -249,6 +270,22 @@ func genericScalarReplay(o checkOpts, w *World, ob *Obligation, rp *Replay, fn *
 			extra = append(extra, pinTerm(vc.e, rterm, res[i], fn.Signature.Results().At(i).Type()))
 		}
 	}
+	// uninterpreted spec functions in the clause must be pinned to their concrete meaning
+	strs := map[string]string{}
+	for _, p := range fn.Params {
+		t := vc.params[p.Name()]
+		if t.Sort.Kind == KStr {
+			if sv, ok := concreteString(rp.Model, t.S); ok {
+				strs[t.S] = sv
+			}
+		}
+	}
+	specPins, okPins := pinSpecApps(ob.goal.S, strs)
+	if !okPins {
+		rp.ReplayNote = fmt.Sprintf("real code called with the model's input returns %v; the clause mentions uninterpreted specification functions that cannot be evaluated on concrete values here, so the run is not judged", res)
+		return
+	}
+	extra = append(extra, specPins...)
 	extra = append(extra, "(assert (not "+ob.goal.S+"))")
 	// only the declarations, literals and axioms are needed: inputs and outputs are concrete
 	q := ob.enc.queryX(0, extra, nil, true)
@@ -301,4 +338,86 @@ func pinTerm(e *Enc, t *T, lit string, typ types.Type) string {
 		return b.String()
 	}
 	return ""
+}
+
+// concrete meaning of the uninterpreted string functions of the specification
+func specIsDigits(s string) bool {
+	if s == "" {
+		return false
+	}
+	for i := 0; i < len(s); i++ {
+		if s[i] < '0' || s[i] > '9' {
+			return false
+		}
+	}
+	return true
+}
+
+func specDec64(s string) (int64, bool) {
+	n, ok := new(big.Int).SetString(s, 10)
+	if !ok || !specIsDigits(s) {
+		return 0, false
+	}
+	if n.IsInt64() {
+		return n.Int64(), false
+	}
+	return 1<<63 - 1, true
+}
+
+// pinSpecApps finds every application spec$f(ARG) in the clause text and pins
+// it when ARG is a known concrete string (a parameter, or its tail s[1:]).
+func pinSpecApps(goal string, strs map[string]string) ([]string, bool) {
+	var pins []string
+	seen := map[string]bool{}
+	for i := 0; i < len(goal); i++ {
+		if !strings.HasPrefix(goal[i:], "(spec$") {
+			continue
+		}
+		// extract the balanced application
+		depth, j := 0, i
+		for ; j < len(goal); j++ {
+			if goal[j] == '(' {
+				depth++
+			} else if goal[j] == ')' {
+				depth--
+				if depth == 0 {
+					break
+				}
+			}
+		}
+		appl := goal[i : j+1]
+		if seen[appl] {
+			continue
+		}
+		seen[appl] = true
+		sp := strings.IndexByte(appl, ' ')
+		name, arg := appl[1:sp], strings.TrimSpace(appl[sp+1:len(appl)-1])
+		var val string
+		var known bool
+		if sv, ok := strs[arg]; ok {
+			val, known = sv, true
+		} else {
+			for pterm, sv := range strs {
+				if arg == sapp("ssub", pterm, bvLit(1, 64), sapp("slen", pterm)) && len(sv) >= 1 {
+					val, known = sv[1:], true
+				}
+			}
+		}
+		if !known {
+			return nil, false
+		}
+		switch name {
+		case "spec$isDigits":
+			pins = append(pins, fmt.Sprintf("(assert (= %s %v))", appl, specIsDigits(val)))
+		case "spec$dec64":
+			n, _ := specDec64(val)
+			pins = append(pins, fmt.Sprintf("(assert (= %s %s))", appl, bvLit(n, 64)))
+		case "spec$decOverflow":
+			_, o := specDec64(val)
+			pins = append(pins, fmt.Sprintf("(assert (= %s %v))", appl, o))
+		default:
+			return nil, false
+		}
+	}
+	return pins, true
 }
